@@ -31,6 +31,79 @@ package router
 // package-level error values are initialised once with errors.New and never reassigned
 //@ axiom errKeyOutOfRange: errors.ErrKeyOutOfRange != nil
 
+// ---------------------------------------------------------------- C01 interface contracts (router.Rule, router.Shard)
+// Abstract placement: place(s,k) is the table index shard s stores key k in (= FindForKey), klt the strict order
+// of the sharding column's values. Rule getters are deterministic functions of the (immutable, C07) rule.
+//@ pure place(s Shard, k interface{}) int
+//@ pure placeOK(s Shard, k interface{}) bool
+//@ pure klt(s Shard, a interface{}, b interface{}) bool
+//@ pure shardOf(r Rule) Shard
+//@ pure shardCol(r Rule) string
+//@ pure subTables(r Rule) []int
+//@ pure firstIdx(r Rule) int
+//@ pure lastIdx(r Rule) int
+//@ pure ruleType(r Rule) string
+//@ iface Rule.GetShard
+//@   params recv
+//@   pure-call
+//@   ensures ret0 == shardOf(recv)
+//@ iface Rule.GetShardingColumn
+//@   params recv
+//@   pure-call
+//@   ensures ret0 == shardCol(recv)
+//@ iface Rule.GetSubTableIndexes
+//@   params recv
+//@   pure-call
+//@   ensures ret0 == subTables(recv)
+//@ iface Rule.GetFirstTableIndex
+//@   params recv
+//@   pure-call
+//@   ensures ret0 == firstIdx(recv)
+//@ iface Rule.GetLastTableIndex
+//@   params recv
+//@   pure-call
+//@   ensures ret0 == lastIdx(recv)
+//@ iface Rule.GetType
+//@   params recv
+//@   pure-call
+//@   ensures ret0 == ruleType(recv)
+//@ iface Rule.FindTableIndex
+//@   params recv, key
+//@   pure-call
+//@   ensures (ret1 == nil) <==> placeOK(shardOf(recv), key)
+//@   ensures ret1 == nil ==> ret0 == place(shardOf(recv), key)
+//@ iface Shard.FindForKey
+//@   params recv, key
+//@   pure-call
+//@   ensures (ret1 == nil) <==> placeOK(recv, key)
+//@   ensures ret1 == nil ==> ret0 == place(recv, key)
+// EqualStart may answer true only for the smallest key of table `index`
+//@ iface RangeShard.EqualStart
+//@   params recv, key, index
+//@   pure-call
+//@   ensures ret0 && index == place(recv, key) ==> forall(k interface{}, placeOK(recv, k) && klt(recv, k, key) ==> place(recv, k) < index)
+
+// implementations of the Rule interface against the interface contracts (behavioural subtyping)
+//@ property C01: (*BaseRule).FindTableIndex, (*BaseRule).GetShard, (*LinkedRule).FindTableIndex, (*LinkedRule).GetShard
+//@ func (*BaseRule).GetShard
+//@   requires r != nil
+//@   assigns \nothing
+//@   ensures ret0 == r.shard
+//@ func (*BaseRule).FindTableIndex
+//@   requires r != nil && r.shard != nil
+//@   assigns \nothing
+//@   ensures (ret1 == nil) <==> placeOK(r.shard, key)
+//@   ensures ret1 == nil ==> ret0 == place(r.shard, key)
+//@ func (*LinkedRule).GetShard
+//@   requires l != nil && l.linkToRule != nil
+//@   assigns \nothing
+//@   ensures ret0 == l.linkToRule.shard
+//@ func (*LinkedRule).FindTableIndex
+//@   requires l != nil && l.linkToRule != nil && l.linkToRule.shard != nil
+//@   assigns \nothing
+//@   ensures (ret1 == nil) <==> placeOK(l.linkToRule.shard, key)
+//@   ensures ret1 == nil ==> ret0 == place(l.linkToRule.shard, key)
+
 // ---------------------------------------------------------------- C09 numeric ranges
 // numeric value of a sharding key, as the router reads it
 //@ pure numOK(v interface{}) bool = typeis(v, int) || typeis(v, uint64) || typeis(v, int64) ||
